@@ -114,8 +114,14 @@ def gen_edit(rng, c):
     if c["teams"]:
         kinds.append("add_worker")
     if nt >= 2:
-        kinds.append("edge")
+        kinds += ["edge", "edge"]
+    cand = [(i, ti) for i, t in enumerate(c["tasks"]) for ti in range(len(c["teams"])) if ti not in t["teams"] and not c["teams"][ti].get("oneside")]
+    if cand:
+        kinds += ["target", "target", "target", "target"]
     k = rng.choice(kinds)
+    if k == "target":
+        i, ti = rng.choice(cand)
+        return {"kind": k, "t": i, "team": ti}
     if k == "skill":
         ti, j = rng.choice(teams)
         return {"kind": k, "team": ti, "j": j, "name": c["tasks"][rng.randrange(nt)]["name"], "val": rng.choice(["2/1", "1/2", "0/1", "1/1", "3/2"])}
@@ -128,7 +134,7 @@ def gen_edit(rng, c):
         return {"kind": k, "team": ti, "j": j, "val": rng.choice(["0/1", "7/1", "1/2"])}
     if k == "wabs":
         ti, j = rng.choice(teams)
-        return {"kind": k, "team": ti, "j": j, "list": sorted(set(rng.randrange(0, 8) for _ in range(rng.choice([1, 2, 3]))))}
+        return {"kind": k, "team": ti, "j": j, "list": sorted(set(rng.randrange(0, 8) for _ in range(rng.choice([1, 2, 3])))), "inplace": rng.random() < 0.6}
     if k == "add_worker":
         nm = c["tasks"][rng.randrange(nt)]["name"]
         return {"kind": k, "worker": {"skills": {str(nm): rng.choice(["1/1", "2/1", "1/2"])}, "fskills": {}, "cost": rng.choice(["1/1", "3/1"]),
@@ -151,7 +157,7 @@ def gen_edit(rng, c):
     if not pairs:
         return {"kind": "work", "t": rng.randrange(nt), "val": "2/1"}
     p_, s_ = rng.choice(pairs)
-    return {"kind": "edge", "p": p_, "s": s_, "k": rng.choice([0, 0, 1, 2, 3])}
+    return {"kind": "edge", "p": p_, "s": s_, "k": rng.choice([0, 0, 1, 2, 3]), "extend": rng.random() < 0.5}
 
 
 def gen_cases(rng, n):
